@@ -41,7 +41,7 @@ CTX = {
     "nochol_root": lambda: [S.fast_computations(covar_root_decomposition=False)],
     "vjit": lambda: [S.variational_cholesky_jitter(double_value=1e-3)],
     # deliberately coarse approximations (legitimate for the call that asks for them; they must not outlive it)
-    "lowrank": lambda: [S.fast_pred_var(), S.max_root_decomposition_size(2)],
+    "lowrank": lambda: [S.fast_pred_var(), S.max_root_decomposition_size(2), S.max_cholesky_size(0)],
     "loosecg": lambda: [S.max_cholesky_size(0), S.eval_cg_tolerance(0.5), S.max_preconditioner_size(0)],
 }
 LOOSE = {"cg", "fpv", "fps"}
